@@ -350,6 +350,14 @@ GroupRule(r0) ==
           THEN /\ Chk("C02", r.kind = grp.kind, "C02_VerdictDiffers", <<grp.profile, grp.kind, r.kind>>)
                /\ Cover(<<"paired">>)
           ELSE TRUE)
+     \* C17: the same problem through the C++ binding: identical solution sequence or
+     \* identical error text
+     /\ (IF linked /\ cfg.same = "result"
+          THEN /\ Chk("C17", r.kind = grp.kind, "C17_VerdictDiffers", <<grp.kind, r.kind>>)
+               /\ Chk("C17", r.sol = grp.sol, "C17_SolutionDiffers", <<grp.sol, r.sol>>)
+               /\ Chk("C17", r.msg = grp.msg, "C17_ErrorTextDiffers", 0)
+               /\ Cover(<<"cpp_paired">>)
+          ELSE TRUE)
      /\ (IF linked /\ comparable /\ cfg.same = "exact"
           THEN /\ Chk("C06", r.sol = grp.sol, "C06_SolutionDiffers", <<grp.sol, r.sol>>)
                /\ Chk("C06", r.msg = grp.msg, "C06_MessageDiffers", 0)
